@@ -1187,9 +1187,11 @@ esl_msa_SetSeqAccession(ESL_MSA *msa, int idx, const char *s, esl_pos_t n)
   if (msa->sqacc && msa->sqacc[idx]) { free(msa->sqacc[idx]); msa->sqacc[idx] = NULL; }
 
   /* erasure case */
-  if (! s && msa->sqacc) {				
-    for (i = 0; i < msa->sqalloc; i++) if (msa->sqacc[i]) break;
-    if (i == msa->sqalloc) { free(msa->sqacc); msa->sqacc = NULL; }
+  if (! s) {
+    if (msa->sqacc) {
+      for (i = 0; i < msa->sqalloc; i++) if (msa->sqacc[i]) break;
+      if (i == msa->sqalloc) { free(msa->sqacc); msa->sqacc = NULL; }
+    }
     return eslOK;
   }
 
@@ -1239,9 +1241,11 @@ esl_msa_SetSeqDescription(ESL_MSA *msa, int idx, const char *s, esl_pos_t n)
   if (msa->sqdesc && msa->sqdesc[idx]) { free(msa->sqdesc[idx]); msa->sqdesc[idx] = NULL; }
 
   /* erasure case. If we just freed the only description, free the entire optional <sqdesc> array */
-  if (! s && msa->sqdesc) {				
-    for (i = 0; i < msa->sqalloc; i++) if (msa->sqdesc[i]) break;
-    if (i == msa->sqalloc) { free(msa->sqdesc); msa->sqdesc = NULL; }
+  if (! s) {
+    if (msa->sqdesc) {
+      for (i = 0; i < msa->sqalloc; i++) if (msa->sqdesc[i]) break;
+      if (i == msa->sqalloc) { free(msa->sqdesc); msa->sqdesc = NULL; }
+    }
     return eslOK;
   }
 
@@ -1464,7 +1468,11 @@ esl_msa_FormatSeqAccession(ESL_MSA *msa, int idx, const char *acc, ...)
 
   if (idx  >= msa->sqalloc) ESL_EXCEPTION(eslEINVAL, "no such sequence %d (only %d allocated)", idx, msa->sqalloc);
   if (acc == NULL) {
-    if (msa->sqacc != NULL) { free(msa->sqacc[idx]); msa->sqacc[idx] = NULL; }
+    if (msa->sqacc != NULL) {
+      free(msa->sqacc[idx]); msa->sqacc[idx] = NULL; 
+      for (i = 0; i < msa->sqalloc; i++) if (msa->sqacc[i]) break;
+      if (i == msa->sqalloc) { free(msa->sqacc); msa->sqacc = NULL; }   /* the last one: free the optional array, as esl_msa_SetSeq*() does */
+    }
     return eslOK;
   }
 
@@ -1505,7 +1513,11 @@ esl_msa_FormatSeqDescription(ESL_MSA *msa, int idx, const char *desc, ...)
 
   if (idx  >= msa->sqalloc) ESL_EXCEPTION(eslEINVAL, "no such sequence %d (only %d allocated)", idx, msa->sqalloc);
   if (desc == NULL) {
-    if (msa->sqdesc != NULL) { free(msa->sqdesc[idx]); msa->sqdesc[idx] = NULL; }
+    if (msa->sqdesc != NULL) {
+      free(msa->sqdesc[idx]); msa->sqdesc[idx] = NULL; 
+      for (i = 0; i < msa->sqalloc; i++) if (msa->sqdesc[i]) break;
+      if (i == msa->sqalloc) { free(msa->sqdesc); msa->sqdesc = NULL; }   /* the last one: free the optional array, as esl_msa_SetSeq*() does */
+    }
     return eslOK;
   }
 
